@@ -536,6 +536,9 @@ func func_Subtract(rtParams FunctionParameterTypes, val any) (any, error) {
 const FT_Divide FT_FunctionType = "Divide"
 
 func func_Divide(rtParams FunctionParameterTypes, val any) (any, error) {
+	if param, err := paramsGetFirstOfNumber(rtParams); err == nil && param.IsZero() {
+		return false, fmt.Errorf("func %s: cannot divide by zero", FT_Divide)
+	}
 	return func_decimal(rtParams, val, decimal.Decimal.Div, FT_Divide)
 }
 
@@ -548,6 +551,9 @@ func func_Multiply(rtParams FunctionParameterTypes, val any) (any, error) {
 const FT_Modulo FT_FunctionType = "Modulo"
 
 func func_Modulo(rtParams FunctionParameterTypes, val any) (any, error) {
+	if param, err := paramsGetFirstOfNumber(rtParams); err == nil && param.IsZero() {
+		return false, fmt.Errorf("func %s: cannot divide by zero", FT_Modulo)
+	}
 	return func_decimal(rtParams, val, decimal.Decimal.Mod, FT_Modulo)
 }
 
